@@ -58,11 +58,27 @@ Print Assumptions C15_wire_view.
 (* ---------- 2. invalid rules ---------- *)
 Theorem C15_invalid_rule_refused :
   forall (c : ccfg) (k : cache) (parent : json) (rules : list (option rule)),
-    refused_for c parent rules ->
-    is_ok (get_related_objects c k parent rules) = false /\
-    (has_null_rule rules = false -> get_related_objects c k parent rules = Err).
+    refused_for c parent rules -> get_related_objects c k parent rules = Err.
 Proof. exact C15_invalid_rule_lemma. Qed.
 Print Assumptions C15_invalid_rule_refused.
+
+(* the refused shapes: a null entry; a rule with both styles or a foreign namespace (rule_bad) *)
+Theorem C15_null_entry_refused :
+  forall c parent rules, In None rules -> refused_for c parent rules.
+Proof. exact null_entry_refused. Qed.
+Print Assumptions C15_null_entry_refused.
+
+Theorem C15_bad_rule_refused :
+  forall c parent rules r,
+    In (Some r) rules -> rule_bad (p_namespaced c) parent r = true -> refused_for c parent rules.
+Proof. exact bad_rule_refused. Qed.
+Print Assumptions C15_bad_rule_refused.
+
+(* GetRelatedObjects never panics, whatever the hook answered *)
+Theorem C15_related_never_panics :
+  forall c k parent rules, is_panic (get_related_objects c k parent rules) = false.
+Proof. exact C15_related_never_panics_lemma. Qed.
+Print Assumptions C15_related_never_panics.
 
 Theorem C15_both_styles_always_refused :
   forall pn parent r, selection_type r = SelInvalid -> rule_bad pn parent r = true.
@@ -86,7 +102,8 @@ Theorem C15_invalid_rule_not_done :
     (forall h cl, customize_env c cl (e h cl)) ->
     Forall (fun hc => C15_quiet_call c (snd hc))
            (calls_with_history (fst (run (sync_tail_c c cc k parent observed) e []))) /\
-    fst (snd (run (sync_tail_c c cc k parent observed) e [])) <> SDone.
+    fst (snd (run (sync_tail_c c cc k parent observed) e [])) <> SDone /\
+    fst (snd (run (sync_tail_c c cc k parent observed) e [])) <> SPanic.
 Proof. exact C15_invalid_tail_lemma. Qed.
 Print Assumptions C15_invalid_rule_not_done.
 
@@ -118,6 +135,14 @@ Theorem C15_selected_implies_trigger_partial :
       every_selecting_rule_triggers c parent (some_rules rules) o = true.
 Proof. exact C15_selected_implies_trigger_lemma. Qed.
 Print Assumptions C15_selected_implies_trigger_partial.
+
+(* the related-object event handler (findRelatedParents, one parent, one changed object) is that
+   predicate: null rules skipped, unknown resources and failing rules skipped *)
+Theorem C15_handler_is_triggers :
+  forall c parent rules o,
+    parent_woken_by c parent rules [o] = triggers c parent (some_rules rules) o.
+Proof. exact parent_woken_by_triggers. Qed.
+Print Assumptions C15_handler_is_triggers.
 
 (* ---------- 4. asked once ---------- *)
 Theorem C15_customize_once_thm :
@@ -220,15 +245,17 @@ Definition ex_both : rule := mkRule "v1" "pods" (Some (mkSel [] [])) "" ["a"].
 Definition ex_foreign : rule := mkRule "v1" "pods" None "ns2" [].
 
 Example ex_refused_both : refused_for ex_cfg ex_parent [Some (mkRule "v1" "pods" None "" []); Some ex_both].
-Proof. exists ex_both. split; [right; left; reflexivity | reflexivity]. Qed.
+Proof. exists (Some ex_both). split; [right; left; reflexivity | reflexivity]. Qed.
 
 Example ex_refused_foreign : refused_for ex_cfg ex_parent [Some ex_foreign].
-Proof. exists ex_foreign. split; [left; reflexivity | vm_compute; reflexivity]. Qed.
+Proof. exists (Some ex_foreign). split; [left; reflexivity | vm_compute; reflexivity]. Qed.
 
 Example ex_refused_results :
   get_related_objects ex_cfg ex_cache ex_parent [Some (mkRule "v1" "pods" None "" []); Some ex_both] = Err /\
   get_related_objects ex_cfg ex_cache ex_parent [Some ex_foreign] = Err /\
-  get_related_objects ex_cfg ex_cache ex_parent [None] = Panic.
+  get_related_objects ex_cfg ex_cache ex_parent [None] = Err /\
+  (* a null entry behind a valid rule: still an error *)
+  get_related_objects ex_cfg ex_cache ex_parent [Some (mkRule "v1" "pods" None "" []); None] = Err.
 Proof. repeat split; vm_compute; reflexivity. Qed.
 
 (* an environment whose customize hook always answers with a both-styles rule *)
@@ -246,7 +273,7 @@ Example ex_bad_env_ok : forall h cl, customize_env ex_cfg cl (ex_bad_env h cl).
 Proof.
   intros h cl. destruct cl as [q | hk body]; [exact I|]. destruct hk; try exact I.
   cbn [ex_bad_env customize_env]. intros rules Hd. vm_compute in Hd. injection Hd as <-.
-  eexists. split; [left; reflexivity|]. apply invalid_is_bad. reflexivity.
+  eexists (Some _). split; [left; reflexivity|]. cbn [entry_bad]. apply invalid_is_bad. reflexivity.
 Qed.
 
 Example ex_bad_env_run :
